@@ -57,7 +57,7 @@ def gen_scene(seed, k, family):
         meta['M'] = M
     elif family == 'degenerate':
         kind = rng.choice(['single', 'allnan', 'identical', 'twovalued', 'vv', 'type0height', 'hightype', 'typednan',
-                           'coincident', 'subsecond', 'daylong', 'typednan23'])
+                           'coincident', 'subsecond', 'daylong', 'typednan23', 'orphan', 'orphan', 'twofirst', 'twofirst'])
         meta['kind'] = kind
         n = rng.choice([1, 2, 5, 12, 40])
         if kind == 'single':
@@ -85,6 +85,32 @@ def gen_scene(seed, k, family):
                 rows.append(('0', -15.0 * i, 1500.0 + (i % 4), 1))
                 rows.append(('0', -15.0 * i, float('nan'), 2))
                 rows.append(('0', -15.0 * i, float('nan'), 3))
+        elif kind == 'orphan':
+            # accepted with a warning only: higher-type hits with no coincident lower type, measurements that
+            # consist of a type-2 / type-3 hit alone, next to ordinary ones
+            rows = []
+            for i in range(max(n, 8)):
+                c = str(i % rng.choice([1, 2]))
+                r = rng.random()
+                if r < 0.35:
+                    rows.append((c, -15.0 * i, 2600.0 + (i % 3), rng.choice([2, 3])))
+                elif r < 0.5:
+                    rows.append((c, -15.0 * i, 900.0 + (i % 2), 1))
+                    rows.append((c, -15.0 * i, 2600.0 + (i % 3), 3))
+                elif r < 0.65:
+                    rows.append((c, -15.0 * i, float('nan'), 0))
+                else:
+                    rows.append((c, -15.0 * i, 900.0 + (i % 2), 1))
+        elif kind == 'twofirst':
+            # accepted silently: several rows of the same type at one (ceilo, dt) with different heights
+            rows = []
+            for i in range(max(n, 8)):
+                c = str(i % rng.choice([1, 2]))
+                rows.append((c, -15.0 * i, 1100.0 + (i % 2), 1))
+                if rng.random() < 0.5:
+                    rows.append((c, -15.0 * i, 1100.0 + (i % 2) + rng.choice([300.0, 2.0, 1700.0]), 1))
+                if rng.random() < 0.2:
+                    rows.append((c, -15.0 * i, 4100.0, 2))
         elif kind == 'coincident':
             rows = [(str(c), -15.0 * i, 700.0 + 10 * c + i, 1) for i in range(max(n, 5)) for c in range(3)]
         elif kind == 'subsecond':
